@@ -2,6 +2,7 @@ import RsyncModel.Driver.Util
 import RsyncModel.Driver.MuxOps
 import RsyncModel.Driver.AclOps
 import RsyncModel.Driver.DeltaOps
+import RsyncModel.Driver.GenOps
 open Driver
 
 def dispatch (line : String) : String :=
@@ -12,6 +13,7 @@ def dispatch (line : String) : String :=
   | op :: _ =>
     if op.startsWith "mux." then muxOp fs
     else if op == "acl" then aclOp fs
+    else if op == "gen" || op == "genrecv" then genOp fs
     else if ["sum1", "md4", "sumsizes", "gensums", "search", "recvdata"].contains op then deltaOp fs
     else "bad-op"
 
